@@ -392,8 +392,17 @@ PPL::Grid::frequency_no_check(const Linear_Expression& expr,
   Scalar_Products::homogeneous_assign(val_n, expr, point);
   val_n += expr.inhomogeneous_term() * val_d;
 
-  // Reduce `val_n' by the frequency `freq_n'.
+  // Reduce `val_n' by the frequency `freq_n', choosing the
+  // representative that is closest to zero.
   val_n %= freq_n;
+  PPL_DIRTY_TEMP_COEFFICIENT(twice_val_n);
+  twice_val_n = 2 * val_n;
+  if (twice_val_n > freq_n) {
+    val_n -= freq_n;
+  }
+  else if (twice_val_n < -freq_n) {
+    val_n += freq_n;
+  }
 
   PPL_DIRTY_TEMP_COEFFICIENT(gcd);
   // Reduce `freq_n' and `freq_d'.
